@@ -175,6 +175,24 @@ def act(a, c, st, case):
             x = "<presence%s%s id='%s'><status>%s</status></presence>" % (fa, ta, marker, marker)
         else:
             x = "<iq%s%s id='%s' type='get'><query xmlns='jabber:iq:version' marker='%s'/></iq>" % (fa, ta, marker, marker)
+        if tag == "smuggle":
+            # a second stanza hidden, properly escaped, inside a namespace URI / attribute value / text / prefixed declaration of a legal one:
+            # it must arrive (if at all) as data of the first, never as a stanza of its own with a from of the sender's choosing
+            import xml.sax.saxutils as su
+            inner_id = marker + "-inner"
+            where = a[4]
+            close = {"ns": "urn:x\"/>", "attr": "v\"/>", "text": "", "prefix-ns": "urn:p\"/>"}[where]
+            hidden = "%s</message><message from=\"admin@%s\" to=\"%s\" id=\"%s\" type=\"chat\"><body>%s</body><x xmlns=\"urn:y" % (close, DOMAIN, VICTIM_FULL, inner_id, inner_id)
+            esc = su.escape(hidden, {'"': "&quot;", "'": "&apos;"})
+            if where == "ns":
+                x = "<message%s%s id='%s' type='chat'><body>%s</body><x xmlns='%s'/></message>" % (fa, ta, marker, marker, esc)
+            elif where == "attr":
+                x = "<message%s%s id='%s' type='chat'><body>%s</body><x xmlns='urn:z' a='%s'/></message>" % (fa, ta, marker, marker, esc)
+            elif where == "prefix-ns":
+                x = "<message%s%s id='%s' type='chat'><body>%s</body><p:x xmlns:p='%s'/></message>" % (fa, ta, marker, marker, esc)
+            else:
+                x = "<message%s%s id='%s' type='chat'><body>%s</body><x xmlns='urn:z'>%s</x></message>" % (fa, ta, marker, marker, esc)
+            st["markers"][inner_id] = {"authed_as": st["authed_as"], "bound": st["bound"], "from_class": "hidden-in-" + where, "to_class": to, "tag": "smuggled-message", "smuggled": True}
         st["markers"][marker] = {"authed_as": st["authed_as"], "bound": st["bound"], "from_class": frm, "to_class": to, "tag": tag}
         c.send(x)
         if tag == "iq":
@@ -216,7 +234,9 @@ def run_case(srv, victim, case, word, viol, stats):
         stats["deliveries"] += 1
         frm = el.get("from") or ""
         ww = dict(w, delivered={"tag": local(el), "from": frm, "id": mid}, sender_state=info)
-        if info["authed_as"] is None:
+        if info.get("smuggled"):
+            viol.append(("smuggled-stanza-delivered %s" % info["from_class"], "text hidden in a %s of a routed stanza arrived at the victim as a stanza of its own (from=%r)" % (info["from_class"][10:], frm), ww))
+        elif info["authed_as"] is None:
             viol.append(("routed-before-authentication %s from=%s" % (info["tag"], info["from_class"]), "a stanza sent by a connection that had not authenticated was delivered to a logged-in user (from=%r)" % frm, ww))
         else:
             ok = frm in ("%s@%s" % (info["authed_as"], DOMAIN),) or frm.startswith("%s@%s/" % (info["authed_as"], DOMAIN))
@@ -224,6 +244,8 @@ def run_case(srv, victim, case, word, viol, stats):
                 viol.append(("delivered-with-foreign-from %s from=%s" % (info["tag"], info["from_class"]), "a routed stanza carries from=%r, the sender is authenticated as %s" % (frm, info["authed_as"]), ww))
             else:
                 stats["stamped_ok"] += 1
+                if info["tag"] == "smuggle":
+                    stats["carrier_of_hidden_stanza_delivered"] += 1
     # replies / signals for unauthenticated connections
     for (what, rid, typ, authed) in st["iq_replies"]:
         if authed is None and typ in ("result",):
@@ -254,7 +276,8 @@ def alphabet(full):
         A += [("open", "wrong"), ("auth", "PLAIN", "malformed"), ("auth", "PLAIN", "prefix"), ("auth", "PLAIN", "authzid-victim"), ("auth", "DIGEST-MD5", "right"), ("auth", "DIGEST-MD5", "wrong"),
               ("auth", "ANONYMOUS", "x"), ("auth", "X-UNKNOWN", "x"), ("auth", "PLAIN", "right", "sasl2"), ("auth", "PLAIN", "wrong", "sasl2"), ("abort",), ("response",), ("session",),
               ("stanza", "message", "third", "victim-full"), ("stanza", "message", "own", "victim-full"), ("stanza", "message", "empty", "victim-bare"), ("stanza", "iq", "victim", "victim-full"),
-              ("stanza", "message", "victim-bare", "absent"), ("stanza", "presence", "victim", "domain")]
+              ("stanza", "message", "victim-bare", "absent"), ("stanza", "presence", "victim", "domain"),
+              ("stanza", "smuggle", "absent", "victim-full", "ns"), ("stanza", "smuggle", "absent", "victim-full", "attr"), ("stanza", "smuggle", "own", "victim-bare", "text"), ("stanza", "smuggle", "absent", "victim-full", "prefix-ns")]
     return A
 
 
@@ -323,6 +346,11 @@ def main(tier, replay=None):
         words.append([("open", "right")] + list(w))
     for _ in range(3000 if tier == "quick" else 100000):
         words.append(gen_word(r, full, r.choice([3, 5, 8, 12])))
+    for where in ("ns", "attr", "text", "prefix-ns"):
+        for frm in ("absent", "own"):
+            for to in ("victim-full", "victim-bare"):
+                for k in range(1, 4):
+                    words.append([("open", "right"), ("auth", "PLAIN", "right"), ("open", "right"), ("bind",)] + [("stanza", "smuggle", frm, to, where)] * k)
     r.shuffle(words)
     W = vf.NPROC
     with ProcessPoolExecutor(max_workers=W) as pool:
@@ -340,6 +368,6 @@ def main(tier, replay=None):
                    "SASL2 authenticate, abort, response without auth, session, from third/own/empty) after a stream open, and random words up to length 12; unique markers tie each delivery at the victim to the send event and the "
                    "sender's authentication state at that moment; the victim connection is fenced with a message to itself" % (depth, ),
            "observed": dict(stats), "samples": [{"attacker_script": [list(a) for a in words[0]]}]}
-    floors = {"cases": stats["cases"] > 1000, "stamped_ok": stats["stamped_ok"] > 0, "unauthenticated": stats["unauthenticated_cases"] > 100, "auth_success": stats["auth_success"] > 0}
+    floors = {"cases": stats["cases"] > 1000, "stamped_ok": stats["stamped_ok"] > 0, "unauthenticated": stats["unauthenticated_cases"] > 100, "auth_success": stats["auth_success"] > 0, "carrier_delivered": stats["carrier_of_hidden_stanza_delivered"] > 0}
     V.finish(cov, "exploration", ["the server has no bundled extensions loaded (no roster/privacy logic): routing is by destination only", "server-to-server (dialback) paths are not exercised",
                                   "timing: attacker replies are awaited for at most 0.15-0.5 s; deliveries are fenced logically on the victim's connection"], floors)
